@@ -103,6 +103,7 @@ def run(ctx):
         ps = [c for c in ar.calls if c.name == "push_str"]
         rep = any(any("replacement" in field_path(o.proj) for ff, o in ultimate_roots(prog, ar, c.args[1], TRANSPARENT | {"next", "into_iter", "deref"})) for c in ps)
         ctx.ob("R1", "apply_rewrite inserts the accepted replacement", rep, "push_str of diff.replacement", where=ar.loc())
+    splice_purity(ctx, "R1")
     frame_agreement(ctx, "R1")
     pd = ctx.anchor("R1", r"^ast_grep::print::interactive_print::process_diffs_interactive$")
     if pd:
@@ -404,3 +405,68 @@ def read_file_identity(ctx, rid):
                "read_file returns %s instead of the string read from disk: the scanned text is not the file's text, so byte ranges differ from the other front ends and --update-all rewrites bytes no edit touched" %
                sorted({describe_origin(ff, o) for ff, o in oks}), where=rf.loc())
 
+
+
+STRING_GROW = {"push_str", "reserve", "reserve_exact", "extend", "push", "write_str", "add_assign", "deref_mut", "deref"}
+
+
+def splice_purity(ctx, rid):
+    """apply_rewrite is a pure splice of the accepted edits: the text it builds is only ever appended to (slices of the old source,
+    replacement texts) and the read cursor into the old source is only ever set to the end of an accepted edit's range.  Anything else
+    (truncating what was written, skipping more of the old source than the edit's range) writes bytes no announced edit describes."""
+    from .c11 import _src_local
+    prog = ctx.prog
+    ar0 = ctx.anchor(rid, r"^ast_grep::print::interactive_print::apply_rewrite$")
+    if not ar0:
+        return
+    ar = prog.inlined(ar0)
+    # the String that is returned
+    out_roots = {id(o.ref) for o in ar.trace_operand(["m", [0, []]]) if o.kind == "call"}
+    outs = [c for c in ar.calls if id(c) in out_roots and "String" in c.best]
+    ctx.ob(rid, "apply_rewrite/output buffer", len(outs) >= 1, "the returned String is created in apply_rewrite (%s)" % [c.name for c in outs], where=ar0.loc())
+    if not outs:
+        return
+    bad = []
+    n_mut = 0
+    for c in ar.calls:
+        if c.bb not in ar.live_blocks or not c.args or c.args[0][0] == "k":
+            continue
+        ty = ar.locals[c.args[0][1][0]]
+        if not ty.startswith("&mut alloc::string::String"):
+            continue
+        if not any(o.kind == "call" and o.ref in outs for o in deep_roots(prog, ar, c.args[0], TRANSPARENT)):
+            continue
+        n_mut += 1
+        if c.name not in STRING_GROW:
+            bad.append("%s at %s" % (c.name, ar.loc(c.line)))
+    ctx.ob(rid, "apply_rewrite/output is only appended to", not bad and n_mut >= 2,
+           "%d mutating call(s) on the output, all appends" % n_mut if not bad else
+           "the text being written is modified by %s: bytes already written (old source or an accepted replacement) are taken back, which no announced edit describes" % bad[:3], where=ar0.loc())
+    # cursor
+    cursors = {}
+    for c in ar.calls:
+        if c.name != "index" or c.bb not in ar.live_blocks or len(c.args) != 2:
+            continue
+        if not any(o.kind == "param" and "old_source" in field_path(o.proj) for o in deep_roots(prog, ar, c.args[0])):
+            continue
+        for o in ar.trace_operand(c.args[1]):
+            if o.kind == "agg" and "ops::range::Range" in str(o.ref[2][1].get("adt", "")) and "start" in o.ref[2][1].get("fields", []):
+                l = _src_local(ar, o.ref[2][2][o.ref[2][1]["fields"].index("start")])
+                if l:
+                    cursors[l[1]] = c
+    ctx.ob(rid, "apply_rewrite/read cursor", len(cursors) == 1, "slices of the old source start at one cursor variable (%s)" % [ar.local_name(l) for l in cursors], where=ar0.loc())
+    for l in cursors:
+        badc = []
+        for d in ar.defs.get(l, []):
+            if d[0] == "call":
+                badc.append("result of %s" % d[1].name)
+                continue
+            rv = d[3]
+            if d[1] not in ar.live_blocks or (rv[0] == "use" and rv[1][0] == "k"):
+                continue
+            ors = ar.trace_operand(rv[1]) if rv[0] == "use" else []
+            if not ors or not all(o.kind in ("param", "local", "call") and "end" in field_path(o.proj) and "range" in " ".join(map(str, o.proj)) + " " + (ar.locals[o.ref] if o.kind in ("param", "local") else ar.locals[o.ref.dest[0]]) for o in ors):
+                badc.append("assignment at %s" % ar.loc(ar.blocks[d[1]]["s"][d[2]][3]))
+        ctx.ob(rid, "apply_rewrite/read cursor is set only to the end of an accepted edit", not badc,
+               "`%s` = diff.range.end" % ar.local_name(l) if not badc else
+               "the cursor into the old source is also moved by %s: more (or less) of the old text is skipped than the accepted edit's range" % badc[:3], where=ar0.loc())
